@@ -109,6 +109,13 @@ class Check(CheckBase):
                 u = users[0] if r.random() < 0.75 else users[1]
                 fs = {nm: r.choice(contents) for nm in r.sample(names_pool, r.randint(1, len(names_pool)))}
                 await world.snapshot(u, fs, note=r.choice([None, f'note {i}', '', 'ünï cödé']))
+            # the recorded time of every snapshot is the UTC clock value of the moment it was taken
+            served = [str(t) for t in world.clock.served]
+            for s in world.snaps.values():
+                if s.timestamp not in served:
+                    viol('the timestamp recorded for a snapshot is not the UTC clock value at which it was taken',
+                         recorded=s.timestamp, clock=served[:4])
+                    break
             me = users[0]
             readable = [s for s in world.snaps.values() if s.user == me or not enc]
             family = list(world.snaps.values())
@@ -181,6 +188,41 @@ class Check(CheckBase):
                         if not row[3].isdigit() or (int(row[3]) == 0) != (len(d) == 0 and int(row[3]) == 0):
                             if not row[3].isdigit():
                                 viol('list-files chunk count is not a number', row=row)
+                # list-files once more with the header on and a shuffled column selection: cells are read BY HEADER
+                fcols = r.sample([FC.SNAPSHOT_NAME, FC.SNAPSHOT_DATE, FC.PATH, FC.CHUNK_COUNT, FC.SIZE, FC.DIGEST, FC.MTIME], r.randint(2, 5))
+                if FC.PATH not in fcols:
+                    fcols.append(FC.PATH)
+                if FC.SNAPSHOT_NAME not in fcols:
+                    fcols.insert(r.randrange(len(fcols) + 1), FC.SNAPSHOT_NAME)
+                out = await world.list_files(me, snapshot_regex=sre, file_regex=fre, header=True, columns=fcols)
+                flines = out.split('\n')[:-1] if out else []
+                classes.add(f'list-files|header|cols={",".join(c.value for c in fcols)}')
+                if flines:
+                    labels = {'SNAPSHOT NAME': FC.SNAPSHOT_NAME, 'SNAPSHOT DATE': FC.SNAPSHOT_DATE, 'PATH': FC.PATH, 'CHUNKS': FC.CHUNK_COUNT,
+                              'SIZE': FC.SIZE, 'DIGEST': FC.DIGEST, 'MODIFIED AT': FC.MTIME}
+                    head = [labels.get(c.strip()) for c in flines[0].split('\t')]
+                    if None in head or sorted(h.value for h in head) != sorted(c.value for c in fcols):
+                        viol('list-files header does not name the selected columns', header=flines[0], columns=[c.value for c in fcols])
+                    else:
+                        bykey = {(s_.name, p_): d_ for s_, p_, d_ in exp_rows}
+                        ref = world.users[me].ref
+                        count('rows_compared', len(flines) - 1)
+                        for line in flines[1:]:
+                            cells = dict(zip(head, [c.strip() for c in line.split('\t')]))
+                            key = (cells.get(FC.SNAPSHOT_NAME), cells.get(FC.PATH))
+                            if key not in bykey:
+                                viol('list-files (read by its header) shows a row that matches no file of a matching snapshot: a cell is '
+                                     'under the wrong column', row=line[:200], header=flines[0][:200])
+                                break
+                            d_ = bykey[key]
+                            if FC.DIGEST in cells and cells[FC.DIGEST] != ref.hash(d_).hex():
+                                viol('list-files (read by its header) shows a wrong digest', row=line[:200])
+                                break
+                            if FC.SIZE in cells and not human_brackets(cells[FC.SIZE], len(d_)):
+                                viol('list-files (read by its header) shows a wrong size', row=line[:200], true=len(d_))
+                                break
+                elif exp_rows:
+                    viol('list-files with a header printed nothing although files match')
                 # list-snapshots with this snapshot filter and a column subset
                 all_cols = [SC.NAME, SC.NOTE, SC.TIMESTAMP, SC.FILE_COUNT, SC.SIZE]
                 subset = r.choice([all_cols] + [list(c) for k in (1, 2, 3) for c in itertools.combinations(all_cols, k)])
@@ -254,6 +296,29 @@ class Check(CheckBase):
                 if tree != expect_tree:
                     viol('restore -S ^<printed name>$ does not restore exactly that snapshot', name=nm[:12])
             mine = [n for n in printed if n in world.snaps and (world.snaps[n].user == me or not enc)]
+            if mine:
+                # a request that mixes a printed name with a name that is not listed must be refused as a whole
+                good = r.choice(mine)
+                for bogus in (good[:-3], good + 'ff', 'deadbeef' * 8):
+                    before_objs = world.store.snapshot_objects()
+                    nmut = len(world.store.mutations)
+                    repo_ = await world.repo(me, fresh=True)
+                    try:
+                        with rep.capture():
+                            await repo_.delete_snapshots(r.sample([good, bogus], 2), confirm=False)
+                        refused = False
+                    except Exception:
+                        refused = True
+                    await world.drain()
+                    count('mixed_delete_requests')
+                    if not refused or len(world.store.mutations) != nmut or world.store.snapshot_objects() != before_objs:
+                        viol('delete with one listed and one unknown snapshot name was not refused before deleting anything',
+                             refused=refused, mutations=len(world.store.mutations) - nmut, unknown=bogus[:16])
+                        for x in list(world.snaps):
+                            if world.snaps[x].location not in world.store.objects:
+                                world.deleted[x] = world.snaps.pop(x)
+                        break
+                mine = [n for n in mine if n in world.snaps]
             if mine:
                 victim = r.choice(mine)
                 before = set(world.snaps)
